@@ -140,35 +140,7 @@ def run(check, an: Analysis):
                    'one: %s' % names)
 
     # a scope absorbs each of its own signals (else they leak out of run())
-    for recv in _scope.scope_receivers(an):
-        method = an.p.find_method(recv, '_is_suppressed')
-        param = method.node.args.args[1].arg
-        own = []
-        for entry in an.p.classes[recv].mro:
-            info = an.p.classes.get(entry)
-            init = info.methods.get('__init__') if info else None
-            if init is None:
-                continue
-            for node in ast.walk(init.node):
-                if isinstance(node, ast.Assign) and isinstance(node.value, ast.Call) and \
-                        ast.unparse(node.value.func) == 'CancelScope' and \
-                        isinstance(node.targets[0], ast.Attribute) and \
-                        ast.unparse(node.targets[0].value) == 'self':
-                    own.append(node.targets[0].attr)
-        for attr in sorted(set(own)):
-            first, second = sorted((param, 'self.%s' % attr))
-            assume = {('is', first, second): True}
-            it = an.it
-            paths = it._paths_of(Callee(method, recv), assume, None, want_truth=True)
-            truths = set()
-            for path in paths:
-                if path.kind == 'return':
-                    truths.add(path.outcome[2] if len(path.outcome) > 2 else 'unknown')
-            check.instance('H', '%s:absorbs-own-%s' % (recv.rsplit('.', 1)[-1], attr),
-                           truths == {True}, where_fn(method),
-                           '_is_suppressed(x) is true whenever x is self.%s (a signal this '
-                           'scope created): %s' % (attr, sorted(map(str, truths))),
-                           analysed=len(paths))
+    _scope.check_suppression(check, an, 'H')
     # ---- P ------------------------------------------------------------------
     _check_signal_lifecycles(check, an, wrapper)
     # ---- S ------------------------------------------------------------------
